@@ -93,6 +93,9 @@ pub struct Plan {
     pub drops: usize,
     /// hello to use
     pub hello: Vec<u8>,
+    /// size of the i-th reply is padded (with a comment after <data>) to reply_pad[i % len] bytes;
+    /// empty = small replies
+    pub reply_pad: Vec<usize>,
 }
 
 impl Plan {
@@ -103,7 +106,7 @@ impl Plan {
         json!({
             "first": self.first.iter().map(|p| format!("{p:?}")).collect::<Vec<_>>(),
             "late": self.late, "block_sends": self.block_sends, "block_after_write": self.block_after_write, "yield_between": self.yield_between,
-            "hello_preloaded": self.hello_preloaded, "extra": self.extra.len(), "drops": self.drops,
+            "hello_preloaded": self.hello_preloaded, "extra": self.extra.len(), "drops": self.drops, "reply_pad": self.reply_pad,
         })
     }
 }
@@ -363,7 +366,8 @@ pub fn run(
                     Some(id) => {
                         let i = ex.ids.len();
                         let tag = format!("t-{case_tag}-{i}-{id}");
-                        replies.push(Some(memwire::data_reply(&id, &tag)));
+                        let pad = if plan.reply_pad.is_empty() { 0 } else { plan.reply_pad[i % plan.reply_pad.len()] };
+                        replies.push(Some(if pad == 0 { memwire::data_reply(&id, &tag) } else { memwire::data_reply_padded(&id, &tag, pad) }));
                         ex.ids.push(id);
                         ex.tags.push(tag);
                     }
